@@ -291,6 +291,9 @@ func gen(tier string, rng *h.Rng, emit0 func(string)) {
 		emit("crseed " + v)
 	}
 
+	// ---- the chain-event half ----------------------------------------------------
+	genChain(rng, emit, hon, thorough)
+
 	// ---- transport ------------------------------------------------------------
 	hon("rid K/id.ok.other/0/0")
 	hon("dec 1 K/known/1/0")
@@ -433,6 +436,114 @@ func gen(tier string, rng *h.Rng, emit0 func(string)) {
 
 	// ---- arbitrary bytes (oracle only) ---------------------------------------
 	genFuzz(rng, emit, thorough)
+}
+
+// ---------------------------------------------------------------- chain events
+
+const maxU256 = "115792089237316195423570985008687907853269984665640564039457584007913129639935"
+
+func genChain(rng *h.Rng, emit, hon func(string), thorough bool) {
+	k := func(q, t int) int {
+		if thorough {
+			return t
+		}
+		return q
+	}
+	nums := []string{"0", "1", "7", "18446744073709551615", "18446744073709551616", "21888242871839275222246405745257275088548364400416034343698204186575808495617", maxU256}
+	num := func() string { return nums[rng.Intn(len(nums))] }
+	// payloads through the real onchainLoop (chain double)
+	hon("chain 5:3:1 Q9/7/5")
+	for _, l := range []string{
+		// member / member without ids / key generation unfinished / unknown group, every request kind, key accepted, dissolve (twice)
+		"chain 5:3:1,6:0:1,8:3:0 R7/5;R7/6;R7/8;R7/9;U1/2/3/5;Q1/2/5;K5;K9;D5;D5;Q1/2/5",
+		// grouping: members, repeated, without this node, empty list, this node alone, duplicate ids, an id the node already has keys
+		// for; then a request and a dissolve for the group whose key generation has just started (real pdkg: no share yet)
+		"chain 5:3:1 G7/1.2.3;G7/1.2.3;G8/2.3;G9/-;G10/1;G11/1.1.2.2;G5/1.2;R3/7;K7;D7",
+		// magnitudes 0 … 2^256-1 in every integer field; a zero seed before a commit-reveal
+		"chain 5:3:1 Q0/0/5;Q" + maxU256 + "/" + maxU256 + "/5;U" + maxU256 + "/0/" + maxU256 + "/5;R0/5;C1/0/0/0;C1/" + maxU256 + "/18446744073709551616/18446744073709551617;R0/9;C1/99/0/0",
+		// error values on the error channel, values without a case
+		"chain - E;X0;X7;X4294967295;O;E",
+		"chain " + maxU256 + ":1:1 Q1/" + maxU256 + "/" + maxU256 + ";D" + maxU256 + ";G" + maxU256 + "/1",
+	} {
+		emit(l)
+	}
+	{ // a NodeId list of 400 members
+		ids := []string{"1"}
+		for i := 2; i <= 400; i++ {
+			ids = append(ids, fmt.Sprint(i))
+		}
+		emit("chain - G12/" + strings.Join(ids, ".") + ";K12")
+	}
+	// nil *big.Int fields, one at a time (model comparison only: not deliverable by the chain side)
+	for _, l := range []string{"chain 5:3:1 Qnil/7/5", "chain 5:3:1 Q9/nil/5", "chain 5:3:1 Unil/2/3/5", "chain 5:3:1 U1/nil/3/5", "chain 5:3:1 U1/2/nil/5", "chain 5:3:1 Rnil/5",
+		"chain 5:3:1 Rnil/9;C1/1/1/1", "chain 5:3:1 C1/nil/1/1", "chain 5:3:1 C1/1/nil/1", "chain 5:3:1 C1/1/1/nil", "chain 5:3:1 Gnil/1.2;Gnil/1;Dnil;Knil;Q9/7/nil;Cnil/1/1/1", "chain nil:3:1 Q9/7/nil;Dnil;Knil"} {
+		emit(l)
+	}
+	randEv := func(raw bool) string {
+		gid := pick(rng, "5", "5", "6", "8", "9", "12")
+		switch rng.Intn(9) {
+		case 0:
+			var ids []string
+			for j := rng.Intn(5); j > 0; j-- {
+				ids = append(ids, pick(rng, "1", "1", "2", "3"))
+			}
+			return "G" + pick(rng, "12", "13", "5") + "/" + join(ids, ".")
+		case 1:
+			return "D" + gid
+		case 2:
+			return "K" + gid
+		case 3:
+			return "R" + num() + "/" + gid
+		case 4:
+			return "U" + num() + "/" + num() + "/" + num() + "/" + gid
+		case 5:
+			return "C" + num() + "/" + num() + "/" + num() + "/" + num()
+		case 6:
+			if raw {
+				return pick(rng, "N", "J", "E")
+			}
+			return pick(rng, "O", "E", "X0", "X3")
+		}
+		return "Q" + num() + "/" + num() + "/" + gid
+	}
+	for i := 0; i < k(6, 150); i++ {
+		var evs []string
+		for j := 2 + rng.Intn(7); j > 0; j-- {
+			evs = append(evs, randEv(false))
+		}
+		emit("chain 5:3:1,6:0:1,8:2:0 " + strings.Join(evs, ";"))
+	}
+	// contract logs through the real adaptor (binding, ABI decoder, table entries, merge, firstEvent) into the real loop
+	hon("chainraw 5:3:1 Q9/7/5")
+	for _, l := range []string{
+		"chainraw 5:3:1 Q9/7/5;d:Q9/7/5;r:Q8/7/5;Q8/7/5;N;J",
+		"chainraw 5:3:1,6:0:1 R0/5;R" + maxU256 + "/6;U0/" + maxU256 + "/0/5;K5;D5;K5",
+		"chainraw - G7/1.2.3;d:G7/1.2.3;G8/2.3;G9/-;G10/1;G7/1.2;R3/7;C1/0/0/0;C2/" + maxU256 + "/" + maxU256 + "/" + maxU256,
+		"chainraw 5:3:1 E;Q1/1/5;X",
+	} {
+		emit(l)
+	}
+	for i := 0; i < k(3, 80); i++ {
+		var evs []string
+		for j := 2 + rng.Intn(6); j > 0; j-- {
+			e := randEv(true)
+			if len(evs) > 0 && rng.Intn(5) == 0 {
+				e = "d:" + strings.TrimPrefix(strings.TrimPrefix(evs[rng.Intn(len(evs))], "r:"), "d:")
+			} else if rng.Intn(6) == 0 && e[0] != 'J' && e[0] != 'E' {
+				e = "r:" + e
+			}
+			if strings.HasSuffix(e, ":J") || strings.HasSuffix(e, ":E") || strings.HasSuffix(e, ":N") {
+				e = e[2:]
+			}
+			evs = append(evs, e)
+		}
+		emit("chainraw 5:3:1,6:0:1 " + strings.Join(evs, ";"))
+	}
+	// the bootstrap document
+	hon("bootips 1 1 3")
+	for _, l := range []string{"bootips 0 1 3", "bootips 0 0 0", "bootips 1 0 3", "bootips 1 1 0", "bootips 1 1 2000"} {
+		emit(l)
+	}
 }
 
 // ---------------------------------------------------------------- recoverSign cases
